@@ -327,10 +327,26 @@ def search_property(impl, rng, rows, alts, thorough=False):
         if ld.get(l2) != k:
             fail("line-dict", "dict keyed by lines: an equal Line%r finds %r" % (k, ld.get(l2)), line=repr(k))
             break
-    for (k1, a, _), (k2, b, _) in zip(lines, lines[1:]):
-        if k1 != k2 and ((a == b) or not (a != b)):
-            fail("line-distinct", "different lines %r and %r compare equal" % (k1, k2))
-            break
+    # different lines compare unequal: all pairs of the same species (they differ in charge only, in transition only,
+    # or in both) and, across species, lines with the same charge and transition
+    by_species = {}
+    for k, l1, _ in lines:
+        by_species.setdefault(k[0], []).append((k, l1))
+    pairs = []
+    for n, group in by_species.items():
+        pairs += [(group[i], group[j]) for i in range(len(group)) for j in range(i + 1, len(group))]
+    firsts = [g[0] for g in by_species.values()]
+    pairs += [(a, b) for a, b in zip(firsts, firsts[1:]) if a[0][1:] == b[0][1:]]
+    reported = set()
+    for (k1, a), (k2, b) in pairs:
+        if k1 != k2 and ((a == b) or not (a != b) or (b == a) or not (b != a)):
+            differ = "+".join(w for w, i in (("species", 0), ("charge", 1), ("transition", 2)) if k1[i] != k2[i])
+            if differ not in reported:
+                reported.add(differ)
+                fail("line-distinct:" + differ, "different lines Line%r and Line%r (they differ in %s): == gives %s, != gives %s"
+                     % (k1, k2, differ, a == b, a != b))
+    if len(ld) != len({k for k, _, _ in lines}):
+        fail("line-dict-len", "a dict keyed by %d different lines has %d entries" % (len({k for k, _, _ in lines}), len(ld)))
     return fails
 
 
